@@ -42,7 +42,7 @@ def heapseq(tr, elem, capv, ln, ops, tier="quick"):
 def rawparts(after, twice, tr, elem, capv=2, tier="quick"):
     name = "c17_rawparts_%s%s__%s_%s__c%d" % (after.lower(), "_twice" if twice else "", tr, elem, capv)
     call = "c10::rawparts_heap::<%s, %s>(%s, c10::RpAfter::%s, %s)" % (TR[tr], elem, P(capv, "s%d" % capv, "s%d" % capv), after, "true" if twice else "false")
-    H(name, call, ["C17", "C18"], tier=tier, unwind=unwind_for(elem, capv + 3), stubs=ALLOC_STUBS,
+    H(name, call, ["C17"], tier=tier, unwind=unwind_for(elem, capv + 3), stubs=ALLOC_STUBS,
       dims=dict(cap=capv, after=after, twice=twice, elem=elem, traits=tr, alloc_stubs=True, shape_symbolic=True), role="c17_rawparts")
 
 
